@@ -1,4 +1,290 @@
 //! Kani proof harnesses compiled as a child module of rosomaxa/src/population/elitism.rs (cfg(kani) only).
+//!
+//! C08 for `Elitism<Obj, Sol>`: inductive step from an arbitrary *sorted* state. The dedup predicate is
+//! NONDETERMINISTIC (every call may answer true or false), which covers strictly more behaviours than the
+//! default `relative_distance < 0.05` predicate.
+use super::*;
+use crate::verif_support::*;
+
+fn le(a: Float, b: Float) -> bool {
+    a.total_cmp(&b) != Ordering::Greater
+}
+
+fn make(max_population_size: usize, selection_size: usize, individuals: Vec<Sol>) -> Elitism<Obj, Sol> {
+    Elitism {
+        objective: Arc::new(Obj),
+        random: nd_random(),
+        selection_size,
+        max_population_size,
+        individuals,
+        speed: None,
+        dedup_fn: Box::new(|_, _, _| kani::any()),
+    }
+}
+
+/// Checks the representation invariant + "never loses the best" against everything that was ever present/offered.
+fn check_post(pop: &Elitism<Obj, Sol>, seen: &[Sol], max: usize) {
+    let n = pop.individuals.len();
+    assert!(n <= max);
+    assert!(n >= 1 || seen.is_empty());
+    assert!(pop.size() == n);
+    // ranking is sorted
+    let mut idx = 1;
+    while idx < n {
+        assert!(le(pop.individuals[idx - 1].f, pop.individuals[idx].f));
+        idx += 1;
+    }
+    // every member was offered (tags are unique per offered individual and the fitness is unchanged)
+    let mut idx = 0;
+    while idx < n {
+        let m = pop.individuals[idx];
+        let mut found = false;
+        let mut j = 0;
+        while j < seen.len() {
+            if seen[j].tag == m.tag && seen[j].f.to_bits() == m.f.to_bits() {
+                found = true;
+            }
+            j += 1;
+        }
+        assert!(found);
+        idx += 1;
+    }
+    // the first ranked is no worse than anything seen
+    if n > 0 {
+        let mut j = 0;
+        while j < seen.len() {
+            assert!(le(pop.individuals[0].f, seen[j].f));
+            j += 1;
+        }
+        assert!(pop.ranked().next().is_some_and(|s| s.tag == pop.individuals[0].tag));
+    }
+}
+
+fn sorted_state<const K: usize>() -> ([Sol; 3], Vec<Sol>) {
+    let all = [any_sol(1), any_sol(2), any_sol(3)];
+    kani::assume(le(all[0].f, all[1].f) && le(all[1].f, all[2].f));
+    let state = match K {
+        0 => vec![],
+        1 => vec![all[0]],
+        2 => vec![all[0], all[1]],
+        _ => vec![all[0], all[1], all[2]],
+    };
+    (all, state)
+}
+
+/// One `add` from an arbitrary sorted state of exactly K individuals with `max_population_size` = MAX.
+fn add_step<const K: usize, const MAX: usize>() {
+    let (prev, state) = sorted_state::<K>();
+    let mut pop = make(MAX, 2, state);
+    let prev_best = if K > 0 { Some(prev[0].f) } else { None };
+
+    let x = any_sol(4);
+    let improved = pop.add(x);
+
+    let seen = [x, prev[0], prev[1], prev[2]];
+    check_post(&pop, &seen[..1 + K], MAX);
+    // reported improvement <=> the first fitness changed
+    let new_best = pop.individuals[0].f;
+    assert!(improved == prev_best.is_none_or(|p| p != new_best));
+    kani::cover!(improved, "improved");
+    kani::cover!(K == 0 || !improved, "kept");
+    kani::cover!(K == 0 || pop.individuals.len() < K + 1, "dedup-or-truncate");
+    std::mem::forget(pop);
+}
+
+/// One `add_all` of N individuals from an arbitrary sorted state of exactly K individuals.
+fn add_all_step<const K: usize, const N: usize, const MAX: usize>() {
+    let (prev, state) = sorted_state::<K>();
+    let mut pop = make(MAX, 2, state);
+
+    let offered = [any_sol(4), any_sol(5), any_sol(6)];
+    let batch = match N {
+        0 => vec![],
+        1 => vec![offered[0]],
+        2 => vec![offered[0], offered[1]],
+        _ => vec![offered[0], offered[1], offered[2]],
+    };
+    let improved = pop.add_all(batch);
+
+    let mut seen = [offered[0]; 6];
+    let mut idx = 0;
+    while idx < N {
+        seen[idx] = offered[idx];
+        idx += 1;
+    }
+    let mut idx = 0;
+    while idx < K {
+        seen[N + idx] = prev[idx];
+        idx += 1;
+    }
+    if N == 0 {
+        // an empty batch changes nothing
+        assert!(!improved && pop.individuals.len() == K);
+    } else {
+        check_post(&pop, &seen[..N + K], MAX);
+    }
+    kani::cover!(N == 0 || improved, "improved-by-batch");
+    kani::cover!(K == 0 || !improved, "batch-not-better");
+    std::mem::forget(pop);
+}
+
+// @verif props=C08 tier=quick ob=elitism_step fn=Elitism::add,Elitism::add_with_iter,Elitism::sort,Elitism::ensure_max_population_size,Elitism::is_improved bounds="arbitrary sorted state of 0 individuals, one add, max_population_size=1; fitness = any i16 as f64; dedup predicate nondeterministic"
+#[kani::proof]
+#[kani::unwind(8)]
+fn c08_elitism_add_k0_max1() {
+    add_step::<0, 1>();
+}
+
+// @verif props=C08 tier=quick ob=elitism_step fn=Elitism::add,Elitism::add_with_iter,Elitism::sort,Elitism::ensure_max_population_size,Elitism::is_improved bounds="arbitrary sorted state of 1 individuals, one add, max_population_size=1; fitness = any i16 as f64; dedup predicate nondeterministic"
+#[kani::proof]
+#[kani::unwind(8)]
+fn c08_elitism_add_k1_max1() {
+    add_step::<1, 1>();
+}
+
+// @verif props=C08 tier=quick ob=elitism_step fn=Elitism::add,Elitism::add_with_iter,Elitism::sort,Elitism::ensure_max_population_size,Elitism::is_improved bounds="arbitrary sorted state of 1 individuals, one add, max_population_size=2; fitness = any i16 as f64; dedup predicate nondeterministic"
+#[kani::proof]
+#[kani::unwind(8)]
+fn c08_elitism_add_k1_max2() {
+    add_step::<1, 2>();
+}
+
+// @verif props=C08 tier=quick ob=elitism_step fn=Elitism::add,Elitism::add_with_iter,Elitism::sort,Elitism::ensure_max_population_size,Elitism::is_improved bounds="arbitrary sorted state of 2 individuals, one add, max_population_size=2; fitness = any i16 as f64; dedup predicate nondeterministic"
+#[kani::proof]
+#[kani::unwind(8)]
+fn c08_elitism_add_k2_max2() {
+    add_step::<2, 2>();
+}
+
+// @verif props=C08 tier=quick ob=elitism_step fn=Elitism::add,Elitism::add_with_iter,Elitism::sort,Elitism::ensure_max_population_size,Elitism::is_improved bounds="arbitrary sorted state of 2 individuals, one add, max_population_size=3; fitness = any i16 as f64; dedup predicate nondeterministic"
+#[kani::proof]
+#[kani::unwind(8)]
+fn c08_elitism_add_k2_max3() {
+    add_step::<2, 3>();
+}
+
+// @verif props=C08 tier=thorough ob=elitism_step fn=Elitism::add,Elitism::add_with_iter,Elitism::sort,Elitism::ensure_max_population_size,Elitism::is_improved bounds="arbitrary sorted state of 3 individuals, one add, max_population_size=3; fitness = any i16 as f64; dedup predicate nondeterministic"
+#[kani::proof]
+#[kani::unwind(8)]
+fn c08_elitism_add_k3_max3() {
+    add_step::<3, 3>();
+}
+
+// @verif props=C08 tier=thorough ob=elitism_step fn=Elitism::add,Elitism::add_with_iter,Elitism::sort,Elitism::ensure_max_population_size,Elitism::is_improved bounds="arbitrary sorted state of 3 individuals, one add, max_population_size=4; fitness = any i16 as f64; dedup predicate nondeterministic"
+#[kani::proof]
+#[kani::unwind(8)]
+fn c08_elitism_add_k3_max4() {
+    add_step::<3, 4>();
+}
+
+// @verif props=C08 tier=thorough ob=elitism_step fn=Elitism::add,Elitism::add_with_iter,Elitism::sort,Elitism::ensure_max_population_size,Elitism::is_improved bounds="arbitrary sorted state of 2 individuals, one add, max_population_size=1; fitness = any i16 as f64; dedup predicate nondeterministic"
+#[kani::proof]
+#[kani::unwind(8)]
+fn c08_elitism_add_k2_max1() {
+    add_step::<2, 1>();
+}
+
+// @verif props=C08 tier=quick ob=elitism_step fn=Elitism::add_all,Elitism::add_with_iter,Elitism::sort,Elitism::ensure_max_population_size,Elitism::is_improved bounds="arbitrary sorted state of 0 individuals, batch of 0, max_population_size=2; dedup predicate nondeterministic"
+#[kani::proof]
+#[kani::unwind(8)]
+fn c08_elitism_add_all_k0_n0_max2() {
+    add_all_step::<0, 0, 2>();
+}
+
+// @verif props=C08 tier=quick ob=elitism_step fn=Elitism::add_all,Elitism::add_with_iter,Elitism::sort,Elitism::ensure_max_population_size,Elitism::is_improved bounds="arbitrary sorted state of 1 individuals, batch of 0, max_population_size=2; dedup predicate nondeterministic"
+#[kani::proof]
+#[kani::unwind(8)]
+fn c08_elitism_add_all_k1_n0_max2() {
+    add_all_step::<1, 0, 2>();
+}
+
+// @verif props=C08 tier=quick ob=elitism_step fn=Elitism::add_all,Elitism::add_with_iter,Elitism::sort,Elitism::ensure_max_population_size,Elitism::is_improved bounds="arbitrary sorted state of 0 individuals, batch of 2, max_population_size=2; dedup predicate nondeterministic"
+#[kani::proof]
+#[kani::unwind(8)]
+fn c08_elitism_add_all_k0_n2_max2() {
+    add_all_step::<0, 2, 2>();
+}
+
+// @verif props=C08 tier=quick ob=elitism_step fn=Elitism::add_all,Elitism::add_with_iter,Elitism::sort,Elitism::ensure_max_population_size,Elitism::is_improved bounds="arbitrary sorted state of 1 individuals, batch of 2, max_population_size=2; dedup predicate nondeterministic"
+#[kani::proof]
+#[kani::unwind(8)]
+fn c08_elitism_add_all_k1_n2_max2() {
+    add_all_step::<1, 2, 2>();
+}
+
+// @verif props=C08 tier=thorough ob=elitism_step fn=Elitism::add_all,Elitism::add_with_iter,Elitism::sort,Elitism::ensure_max_population_size,Elitism::is_improved bounds="arbitrary sorted state of 2 individuals, batch of 2, max_population_size=3; dedup predicate nondeterministic"
+#[kani::proof]
+#[kani::unwind(8)]
+fn c08_elitism_add_all_k2_n2_max3() {
+    add_all_step::<2, 2, 3>();
+}
+
+// @verif props=C08 tier=thorough ob=elitism_step fn=Elitism::add_all,Elitism::add_with_iter,Elitism::sort,Elitism::ensure_max_population_size,Elitism::is_improved bounds="arbitrary sorted state of 2 individuals, batch of 2, max_population_size=4; dedup predicate nondeterministic"
+#[kani::proof]
+#[kani::unwind(8)]
+fn c08_elitism_add_all_k2_n2_max4() {
+    add_all_step::<2, 2, 4>();
+}
+
+// @verif props=C08 tier=thorough ob=elitism_step fn=Elitism::add_all,Elitism::add_with_iter,Elitism::sort,Elitism::ensure_max_population_size,Elitism::is_improved bounds="arbitrary sorted state of 1 individuals, batch of 3, max_population_size=3; dedup predicate nondeterministic"
+#[kani::proof]
+#[kani::unwind(8)]
+fn c08_elitism_add_all_k1_n3_max3() {
+    add_all_step::<1, 3, 3>();
+}
+
+// @verif props=C08 tier=thorough ob=elitism_step fn=Elitism::add_all,Elitism::add_with_iter,Elitism::sort,Elitism::ensure_max_population_size,Elitism::is_improved bounds="arbitrary sorted state of 3 individuals, batch of 2, max_population_size=4; dedup predicate nondeterministic"
+#[kani::proof]
+#[kani::unwind(8)]
+fn c08_elitism_add_all_k3_n2_max4() {
+    add_all_step::<3, 2, 4>();
+}
+
+// @verif props=C08 tier=quick ob=elitism_select fn=Elitism::select,Elitism::on_generation bounds="state of 0..=3 individuals, selection_size 0..=3, speed Unknown|Slow{ratio in {0,1/4,..,1}}; random index arbitrary within its contract"
+#[kani::proof]
+#[kani::unwind(6)]
+fn c08_elitism_select() {
+    let k: usize = kani::any();
+    kani::assume(k <= 3);
+    let (a, b, c) = (any_sol(1), any_sol(2), any_sol(3));
+    let state = match k {
+        0 => vec![],
+        1 => vec![a],
+        2 => vec![a, b],
+        _ => vec![a, b, c],
+    };
+    let selection_size: usize = kani::any();
+    kani::assume(selection_size <= 3);
+    let mut pop = make(3, selection_size, state);
+    let slow: bool = kani::any();
+    let q: u8 = kani::any();
+    kani::assume(q <= 4);
+    if slow {
+        pop.speed = Some(HeuristicSpeed::Slow { ratio: q as Float / 4., average: 0., median: None });
+    }
+
+    let mut count = 0;
+    let mut first_tag = 0;
+    for s in pop.select() {
+        if count == 0 {
+            first_tag = s.tag;
+        }
+        assert!(s.tag >= 1 && s.tag as usize <= k);
+        count += 1;
+    }
+    if k == 0 {
+        assert!(count == 0);
+    } else {
+        // the best individual is always selected first, and something is returned when a selection is requested
+        let expected = if slow { ((selection_size as Float) * (q as Float / 4.)).max(1.).round() as usize } else { selection_size };
+        assert!(count == expected);
+        assert!(count == 0 || first_tag == 1);
+        assert!(selection_size == 0 || count >= 1);
+    }
+    kani::cover!(count == 3, "three-selected");
+    kani::cover!(slow && count == 1 && selection_size == 3, "slowed-down");
+    std::mem::forget(pop);
+}
 
 // Concrete-playback replays (`cargo kani playback`) are compiled from here; the file is written by /verif/check.
 #[cfg(all(kani, test))]
